@@ -416,6 +416,16 @@ func c17(a *vlib.Args) {
 	defer debug.SetGCPercent(old)
 	sinceGC := 0
 
+	// the generated-code family (c17gen.go): once, on shard 0
+	if a.Replay != "" && len(want.Mode) > 4 && want.Mode[:4] == "gen:" {
+		c17genFamily(a, r, runs, want.Mode)
+		r.Write(a)
+		return
+	}
+	if a.Shard == 0 && a.Replay == "" {
+		c17genFamily(a, r, runs, "")
+	}
+
 	total := forEachTree(a, maxNodes, level, true, func(idx int64, c treeCase) {
 		if a.Replay != "" && idx != want.Index {
 			return
